@@ -1,6 +1,6 @@
 #!/bin/bash
 # dev helper: regenerate cache/work/<suite> (catalogue, TLC behaviours, replay on the current tree) for every sequential suite
 T=${1:-quick}
-for s in unary two flat subs multi fin subject share behavior group time7 time8 time9 tsubs retire tasks conv twin fuzz cold13 chain2; do
+for s in unary two flat subs multi fin subject share behavior group time7 time8 time9 tsubs retire tasks conv twin stagger fuzz cold13 chain2; do
   echo "== $s"; timeout 3600 /verif/tools/run_seq.sh $s $T 2>&1 | tail -2
 done
